@@ -650,6 +650,18 @@ def generate(rng, n, tier):
             out.append({"scn": scn, "k": k})
     for c in out:
         c["probe"] = _probe(rng)
+    # CUSTOM PRECEDENCES (Event.precedence is a public attribute): the plug-in events of ~12 % of the plain scenarios carry their own
+    # precedence, 0 included, so that events tied in (timestamp, precedence) are released in an order that depends on the stored
+    # values; the four-run comparison is exact on event_history.  ORACLE ONLY (the Lean event order knows the class precedences).
+    sub = _random.Random(repr(("precs", n, tier, len(out))))
+    seen = set()
+    for c in out:
+        scn = c["scn"]
+        if id(scn) in seen:          # one decision per scenario (its crash points share the object)
+            continue
+        seen.add(id(scn))
+        if not scn.get("stochastic") and scn.get("sched", {}).get("type") in ("scripted", "empty") and sub.random() < 0.12:
+            scn["precs"] = [sub.choice([0, 0, 5, 10, 15, 19]) for _ in scn["sessions"]]
     return out
 
 
@@ -840,7 +852,30 @@ def _base_build(scn, hooks, store_hist):
     return S.build_sim(scn, hooks, store_schedule_history=store_hist)
 
 
+def _apply_precs(sim, scn):
+    """scn["precs"][i]: the precedence given to the plug-in event of session i (left alone when another session leaves the same
+    station in the arrival period: an earlier plug-in would find the station occupied)"""
+    from acnportal.acnsim.events import EventQueue
+    precs = scn.get("precs")
+    if not precs:
+        return
+    by = {s["session"]: p for s, p in zip(scn["sessions"], precs)}
+    leaves = {(s["station"], s["departure"]) for s in scn["sessions"]}
+    evs = [e for _, e in sim.event_queue.queue]
+    for e in evs:
+        ev = getattr(e, "ev", None)
+        if ev is not None and e.event_type == "Plugin" and ev.session_id in by and (ev.station_id, ev.arrival) not in leaves:
+            e.precedence = by[ev.session_id]
+    sim.event_queue = EventQueue(evs)
+
+
 def _build(scn, hooks, store_hist=False):
+    sim, ctx = _build0(scn, hooks, store_hist)
+    _apply_precs(sim, scn)
+    return sim, ctx
+
+
+def _build0(scn, hooks, store_hist=False):
     """S.build_sim; for a real algorithm the wrapped inner algorithm is replaced by one built here (so that
     every sort order and the estimator / uninterrupted options exist)"""
     if _is_real(scn):
@@ -1572,8 +1607,8 @@ def _compare_json(case, mj):
 
 def model_request(case, obs=None):
     scn, k = case["scn"], int(case["k"])
-    if scn.get("stochastic"):
-        return None          # random space assignment is C19's model: oracle only
+    if scn.get("stochastic") or scn.get("precs"):
+        return None          # random space assignment is C19's model; custom event precedences: oracle only
     if _is_real(scn):
         # the composition model of C07 (modelled algorithm + estimator inside the simulator model), uninterrupted:
         # compared with the implementation's uninterrupted AND resumed runs
